@@ -182,3 +182,121 @@ def alloc_err_sweep(ck, cg, roots, bounded_types=(), floor=1, err_exceptions=Non
     ck.extra["unwrap_sites_scanned"] = nu
     ck.ob("ERR", "-", "unwrap-sweep", True, "%d unwrap/expect sites in decode-reachable code scanned for input-derived receivers" % nu, "", nontrivial=False)
     return reach
+
+
+def _array_len_of(f, op, depth=0):
+    """N if the operand is a constant N or the length of a local fixed-size array `[T; N]`"""
+    k = op_const(op)
+    if k is not None:
+        return const_int(k)
+    for a in f.origins(op, deep=True):
+        if a[0] == "call" and len(a) > 2 and re.search(r"::len$", a[1]):
+            t = f.term(a[2])
+            for x in f.origins(t["args"][0], deep=True):
+                pass
+            # the receiver: follow refs/unsize casts to a local of array type
+            work, seen = [op_place(t["args"][0])], set()
+            while work:
+                q = work.pop()
+                if q is None or q[0] in seen:
+                    continue
+                seen.add(q[0])
+                m = re.match(r"^(?:&(?:mut )?)?\[.*; (\d+)\]$", f.locals[q[0]])
+                if m:
+                    return int(m.group(1))
+                for (b2, si, it) in f.defs().get(q[0], []):
+                    if si != "t":
+                        rv = it["rv"]
+                        work.append(rv.get("p") if rv.get("k") == "ref" else op_place(rv.get("a")) if rv.get("k") in ("use", "cast") else None)
+    return None
+
+
+TYPE_MAX = {"u8": 255, "u16": 65535}
+
+
+def array_range_sweep(ck, c, scope, exceptions=None, rule="BOUNDS", floor=1):
+    """Decoding is total: a range taken of a fixed-size array `[T; N]` with a bound that is not a constant must be dominated
+    by an enforced comparison (or a `min`) that keeps the bound inside the array - `..=e` needs e <= N-1, `..e` needs e <= N."""
+    exceptions = exceptions or {}
+    n = 0
+    for p in sorted(c.paths()):
+        if not scope.search(p) or re.search(r"::tests?::|::test_", p):
+            continue
+        for b in c.get_all(p):
+            f = Fn(b)
+            for k, (bi, t) in enumerate(f.calls(r"ops::Index::index$|ops::IndexMut::index_mut$")):
+                m = re.match(r"^\[.*; (\d+)\]$", t["f"].get("self", "") or "")
+                if not m:
+                    continue
+                N = int(m.group(1))
+                rb = rules.range_bounds(f, t["args"][1])
+                need = []
+                if rb is not None and rb[0] in ("range", "to"):
+                    need = [(rb[2], N, "end")]
+                elif rb is not None and rb[0] == "from":
+                    need = [(rb[1], N, "start")]
+                elif rb is None:
+                    r0 = rules.root_local(f, t["args"][1])
+                    for (b2, si, it) in (f.defs().get(r0[0], []) if r0 else []):
+                        if si == "t" and re.search(r"RangeInclusive::<.*>::new$|RangeInclusive<.*>::new$", it["f"].get("path", "")):
+                            need = [(it["args"][1], N - 1, "inclusive end")]
+                if not need:
+                    continue
+                op, limit, what = need[0]
+                if op_const(op) is not None:
+                    continue        # constant ranges are checked by the compiler
+                n += 1
+                key = "%s#%d" % (p, k)
+                if key in exceptions:
+                    ck.ob(rule, p, "array-range-in-bounds#%d" % k, True, "documented exception: " + exceptions[key], f.loc(bi), nontrivial=False)
+                    continue
+                le = rules.lin(f, op)
+                ok, why = False, "bound is not a linear expression of one value"
+                if le is not None and not le[0]:
+                    ok, why = le[1] <= limit, "the %s is the constant %d, the array admits %d" % (what, le[1], limit)
+                elif le is not None and len(le[0]) == 1 and list(le[0].values()) == [1]:
+                    x, cst = list(le[0])[0], le[1]
+                    ub = TYPE_MAX.get(f.locals[x])
+                    why = "no dominating refusal bounds the value"
+                    # min(value, K)
+                    for (b2, si, it) in f.defs().get(x, []):
+                        if si == "t" and re.search(r"cmp::min$|Ord::min$", it["f"].get("path", "")):
+                            ks = [_array_len_of(f, a) for a in it["args"]]
+                            ks = [v for v in ks if v is not None]
+                            if ks:
+                                ub = min(ks) if ub is None else min(ub, min(ks))
+                    for cx in rules.comparisons(f):
+                        if cx["kind"] != "bin" or not f.dominates(cx["bb"], bi):
+                            continue
+                        info = {}
+                        rel, d = rules.cmp_rejects(f, cx, info)
+                        if rel is None or "pass_target" not in info or not f.dominates(info["pass_target"], bi):
+                            continue
+                        la, lb = rules.lin(f, cx["a"]), rules.lin(f, cx["b"])
+                        side = None
+                        if la is not None and la[0] == {x: 1}:
+                            side, other, off = "a", cx["b"], la[1]
+                        elif lb is not None and lb[0] == {x: 1}:
+                            side, other, off = "b", cx["a"], lb[1]
+                        if side is None:
+                            continue
+                        K = _array_len_of(f, other)
+                        if K is None:
+                            continue
+                        if side == "b":
+                            rel = rules.FLIP[rel]
+                        # refuses when x + off `rel` K
+                        if rel == "Gt":
+                            u = K - off
+                        elif rel == "Ge":
+                            u = K - off - 1
+                        else:
+                            continue
+                        ub = u if ub is None else min(ub, u)
+                    if ub is not None:
+                        ok = ub + cst <= limit
+                        why = "the %s is at most %d, the array admits %d" % (what, ub + cst, limit)
+                ck.ob(rule, p, "array-range-in-bounds#%d" % k, ok,
+                      why if ok else "range %s of a %d-element array is not kept in bounds (%s): a crafted length panics the decoder" % (what, N, why), f.loc(bi))
+    ck.floor(rule, "non-constant ranges of fixed-size arrays in decoders", n, floor)
+    return n
